@@ -449,6 +449,111 @@ func registerExternals(w *World) {
 		return r, true
 	}
 
+	// ---- strings functions on symbolic ASCII strings ----
+	inSet := func(in *interp, e value, cutset string) bool {
+		tp := in.tp
+		c := tp.Bool(false)
+		t := in.termOf(e)
+		for i := 0; i < len(cutset); i++ {
+			c = tp.Or(c, tp.Eq(t, tp.BV(uint64(cutset[i]), 8)))
+		}
+		return in.decide(c, "byte in cutset")
+	}
+	asciiCutset := func(v value) (string, bool) {
+		cs, ok := v.(string)
+		if !ok {
+			return "", false
+		}
+		for i := 0; i < len(cs); i++ {
+			if cs[i] >= 0x80 {
+				return "", false
+			}
+		}
+		return cs, true
+	}
+	noAtoms := func(e []value) bool {
+		for _, x := range e {
+			if _, isAtom := x.(*Atom); isAtom {
+				return false
+			}
+		}
+		return true
+	}
+	x["strings.TrimRight"] = func(fr *frame, args []value) (value, bool) {
+		ss, ok := args[0].(*SymStr)
+		cs, ok2 := asciiCutset(args[1])
+		if !ok || !ok2 || !noAtoms(ss.E) {
+			return nil, false
+		}
+		e := ss.E
+		for len(e) > 0 && inSet(fr.in, e[len(e)-1], cs) {
+			e = e[:len(e)-1]
+		}
+		return mkStr(e), true
+	}
+	x["strings.TrimLeft"] = func(fr *frame, args []value) (value, bool) {
+		ss, ok := args[0].(*SymStr)
+		cs, ok2 := asciiCutset(args[1])
+		if !ok || !ok2 || !noAtoms(ss.E) {
+			return nil, false
+		}
+		e := ss.E
+		for len(e) > 0 && inSet(fr.in, e[0], cs) {
+			e = e[1:]
+		}
+		return mkStr(e), true
+	}
+	x["strings.TrimSuffix"] = func(fr *frame, args []value) (value, bool) {
+		if _, isSym := args[0].(*SymStr); !isSym {
+			if _, isSym2 := args[1].(*SymStr); !isSym2 {
+				return nil, false
+			}
+		}
+		a, b := strElems(args[0]), strElems(args[1])
+		if len(a) >= len(b) && fr.in.truth(fr.in.mk(types.Bool, fr.in.strEq(mkStr(a[len(a)-len(b):]), mkStr(b)))) {
+			return mkStr(a[:len(a)-len(b)]), true
+		}
+		return args[0], true
+	}
+	x["strings.TrimPrefix"] = func(fr *frame, args []value) (value, bool) {
+		if _, isSym := args[0].(*SymStr); !isSym {
+			if _, isSym2 := args[1].(*SymStr); !isSym2 {
+				return nil, false
+			}
+		}
+		a, b := strElems(args[0]), strElems(args[1])
+		if len(a) >= len(b) && fr.in.truth(fr.in.mk(types.Bool, fr.in.strEq(mkStr(a[:len(b)]), mkStr(b)))) {
+			return mkStr(a[len(b):]), true
+		}
+		return args[0], true
+	}
+	caseMap := func(lower bool) externalFn {
+		return func(fr *frame, args []value) (value, bool) {
+			ss, ok := args[0].(*SymStr)
+			if !ok || !noAtoms(ss.E) {
+				return nil, false
+			}
+			in := fr.in
+			tp := in.tp
+			out := make([]value, len(ss.E))
+			for i, e := range ss.E {
+				t := in.termOf(e)
+				if !in.decide(tp.bvCmp(OpBVUlt, t, tp.BV(0x80, 8)), "ASCII byte in case mapping") {
+					panic(unsupported{"strings.ToLower/ToUpper on a symbolic non-ASCII byte"})
+				}
+				lo, hi, delta := byte('A'), byte('Z'), uint64(32)
+				if !lower {
+					lo, hi, delta = 'a', 'z', uint64(0x100-32)
+				}
+				isLetter := tp.And(tp.bvCmp(OpBVUle, tp.BV(uint64(lo), 8), t), tp.bvCmp(OpBVUle, t, tp.BV(uint64(hi), 8)))
+				out[i] = in.mk(types.Uint8, tp.Ite(isLetter, tp.bvBin(OpBVAdd, t, tp.BV(delta, 8)), t))
+			}
+			return mkStr(out), true
+		}
+	}
+	x["strings.ToLower"] = caseMap(true)
+	x["strings.ToUpper"] = caseMap(false)
+
 	// ---- strconv on symbolic integers: numeral atoms ----
 	atomOf := func(in *interp, v value) (value, bool) {
 		sv, ok := v.(*Sym)
